@@ -151,7 +151,9 @@ func TestWorker(t *testing.T) {
 			if isKnown {
 				nviol--
 			}
-			if !job.NoMinimise && !isKnown {
+			// a data race is reported once per pair of stacks and process: it cannot be re-observed in this
+			// process, so its tape is kept as recorded
+			if !job.NoMinimise && !isKnown && v.Class != "race" {
 				min, attempts := minimise(t, e, job.Batch, idx, extra, tape.Rec, v, 400)
 				// final run of the minimised tape to get its hash and sample
 				mrec := e.Run(t, job.Batch, rt.NewReplayTape(min), idx, extra, nil)
